@@ -1,5 +1,7 @@
 """C15 Relay dialing (happy eyeballs): failure only after everything was tried."""
 from ..lib import *
+from .. import booltab
+from ..booltab import Unsupported
 
 FN = "iroh_relay::client::tls::dial_happy_eyeballs"
 
@@ -11,7 +13,8 @@ def var_local(f, name):
 
 def check(F, rep):
     rep.clause("inside the dial loop an error is returned only when the resolver stream is finished AND no resolved address is waiting AND no attempt is in flight; `finished` is set only when the address stream ended; every resolved address is queued; the first successful attempt is returned as is")
-    rep.undecided("family preference / alternation and the attempt delays (timing, schedules)")
+    rep.clause("head start of the preferred family: when a resolved address is queued before any attempt, the action on the next-dial timer is a function of (address is of the preferred family, timer unarmed) - preferred => timer cleared (dial at once); other family and timer unarmed => armed with RESOLUTION_DELAY; other family and timer already armed => left alone (a second address of the other family must not cancel the head start) - decided as the outcome function of the block after the queue push")
+    rep.undecided("family alternation in pop_family and the attempt delays themselves (timing, schedules)")
     f = body_of(F, rep, FN)
     du = defuse(f)
     fin = var_local(f, "resolve_stream_finished")
@@ -29,14 +32,9 @@ def check(F, rep):
         if t["k"] == "switch" and t["d"]["k"] in ("copy", "move") and copy_sources(f, t["d"]["p"]["l"], stop=(fin,)) == {("place", fin, ())}:
             su, fa = switch_edges(f, b, 1)
             fin_tests.append(Test(b, su, fa, 0, "bool", False, fin))
-    q_tests, d_tests = [], []
-    for b, t in find_calls(f, regex=r"::is_empty$"):
-        tgt = arg_ref_target(f, t["args"][0])
-        ts, _ = call_result_tests(f, b, family="bool")
-        if tgt == queue:
-            q_tests.extend(ts)
-        elif tgt == dials:
-            d_tests.extend(ts)
+    # `is_empty()` / `len() == 0` / `len() > 0` ... alike (success edge = empty)
+    q_tests, _ = emptiness_tests(f, None, recv=lambda a: arg_ref_target(f, a) == queue)
+    d_tests, _ = emptiness_tests(f, None, recv=lambda a: arg_ref_target(f, a) == dials)
     rep.floor("all-tried", "tests of resolve_stream_finished", len(fin_tests), 1)
     rep.floor("all-tried", "tests of queue.is_empty()", len(q_tests), 1)
     rep.floor("all-tried", "tests of dials.is_empty()", len(d_tests), 1)
@@ -102,3 +100,80 @@ def check(F, rep):
         b, i, rv = oks[0]
         src = copy_sources(f, op_base(rv["ops"][0]), stop=(sels[0].local,))
         rep.ob("first-success", bool(src) and all(x[0] == "place" and x[1] == sels[0].local for x in src), site(f, b), "the returned stream is the completed attempt's own result; sources %s" % sorted(map(str, src)), skey(F, f, "ok-from-dial"))
+    head_start(F, rep, f)
+
+
+def head_start(F, rep, f):
+    sl = [(b, t) for b, t in f.calls() if call_matches(t, r"time::sleep::sleep$|::sleep$") and any(a["k"] == "const" and str(a.get("def") or "").endswith("RESOLUTION_DELAY") for a in t["args"])]
+    rep.exact("head-start", "sleep(RESOLUTION_DELAY) calls", len(sl), 1)
+    if len(sl) != 1:
+        return
+    arm = [(b, t) for b, t in find_calls(f, regex=r"MaybeFuture::set_future$") if f.dominates(sl[0][0], b) and any(x[0] == "call" and x[1].endswith("sleep") for x in copy_sources(f, op_base(t["args"][1])))]
+    rep.exact("head-start", "timer armed with that sleep (set_future)", len(arm), 1)
+    if len(arm) != 1:
+        return
+    tkey = lambda o: frozenset(copy_sources(f, op_base(o))) if op_base(o) is not None else None
+    timer = tkey(arm[0][1]["args"][0])
+    pbs = [(b, t) for b, t in find_calls(f, regex=r"VecDeque::push_back$") if f.dominates(b, arm[0][0])]
+    rep.exact("head-start", "queue push of the resolved address in front of the head-start logic", len(pbs), 1)
+    if len(pbs) != 1:
+        return
+    start = pbs[0][1]["t"]
+    addr = copy_sources(f, op_base(pbs[0][1]["args"][1]))
+    # the join after the head-start logic: post-dominators of the push that lie behind the arm site
+    stops = {b for b in f.reachable(start) if b != start and f.postdominates(b, start) and not f.dominates(b, arm[0][0])}
+    clears = {b for b, t in find_calls(f, regex=r"MaybeFuture::set_none$") if tkey(t["args"][0]) == timer and b in f.reachable(start, removed_blocks=stops)}
+    targets = {b: "clear" for b in clears}
+    targets[arm[0][0]] = "arm"
+    key = skey(F, f, "head-start")
+    try:
+        paths = booltab.extract_outcomes(f, start, stop=stops, targets=targets)
+        free = {}
+        for conds, lab in paths:
+            for a, v in conds:
+                if a.kind == "switch":
+                    free.setdefault(a.bb, set()).add(v)
+
+        def classify(a):
+            if a.kind == "cmp" and a.name in ("Eq", "Ne"):
+                sides = []
+                for o in a.args:
+                    cs = copy_sources(f, op_base(o)) if op_base(o) is not None else set()
+                    if cs and all(x[0] == "call" and x[1].endswith("IpAddr::is_ipv6") for x in cs):
+                        sides.append("is_v6")
+                    elif cs and all(x[0] in ("arg", "place") for x in cs):
+                        sides.append("pref")
+                    else:
+                        sides.append("?")
+                if sorted(sides) == ["is_v6", "pref"]:
+                    return ("preferred", a.name == "Ne")
+            if a.kind == "call" and call_matches(a.term, r"MaybeFuture::(is_none|is_some)$") and tkey(a.args[0]) == timer:
+                return ("unarmed", a.name.endswith("is_some"))
+            return None
+        for conds, lab in paths:
+            for a, v in conds:
+                if a.kind != "switch" and classify(a) is None:
+                    raise Unsupported("test %s at bb%d" % (a.name, a.bb))
+        import itertools
+        frees = sorted(free)
+        want = {(True, True): "clear", (True, False): "clear", (False, True): "arm", (False, False): "stop"}
+        exact, bad = 0, []
+        for combo in itertools.product(*[sorted(free[b], key=str) for b in frees]):
+            fv = dict(zip(frees, combo))
+            got = {}
+            for pref in (True, False):
+                for unarmed in (True, False):
+                    def value_of(a):
+                        if a.kind == "switch":
+                            return fv[a.bb]
+                        nm, neg = classify(a)
+                        return ({"preferred": pref, "unarmed": unarmed}[nm]) != neg
+                    got[(pref, unarmed)] = booltab.outcome(paths, value_of)
+            if got == want:
+                exact += 1
+            elif set(got.values()) != {"stop"}:
+                say = {"clear": "cleared", "arm": "armed", "stop": "left alone", "return": "return"}
+                bad += ["%s family, timer %s -> %s (must be %s)" % ("preferred" if k[0] else "other", "unarmed" if k[1] else "armed", say.get(v, v), say[want[k]]) for k, v in sorted(got.items()) if v != want[k]]
+        rep.ob("head-start", exact >= 1 and not bad, site(f, arm[0][0]), "after queueing a resolved address: preferred family => timer cleared; other family & timer unarmed => armed with RESOLUTION_DELAY; other family & timer armed => left alone. Mismatches: %s" % sorted(set(bad))[:4], key)
+    except Unsupported as e:
+        rep.ob("head-start", False, site(f, arm[0][0]), "the head-start logic could not be extracted (unrecognised idiom, fails closed): %s" % e, key)
